@@ -139,6 +139,16 @@ let hyp tag (t : topo) =
     tag (b01 (keys_unique t)) (b01 (depths_addressable t)) (b01 (vals_u64 t)) (b01 (names_set t)) (b01 (info_names_nodup t)) (b01 (info_pairs_nodup t))
     (b01 (no_hetero_dists t)) (b01 (tmem_consistent t))
 
+(* does the list hold an INFO entry on an object (or on the topology infos) that carries that info name twice?
+   (hwloc_apply_diff_one patches the first (name, old value) match: known finding dup-info-name) *)
+let dupname_hit (t : topo) (d : entry list) : bool =
+  let count nm l = List.length (List.filter (fun (n, _) -> n = nm) l) in
+  List.exists (function
+      | EAttr (dd, i, DInfo (nm, _, _)) ->
+        if dd = t.t_nbl then count nm t.t_infos >= 2
+        else List.exists (fun a -> a.a_depth = dd && a.a_lidx = i && count nm a.a_infos >= 2) (attrs t)
+      | _ -> false) d
+
 let entry_nonnull = function EAttr (_, _, DName (o, n)) -> o <> None && n <> None | _ -> true
 
 exception Case_crashed of str
@@ -168,7 +178,7 @@ let () =
     | _ -> let a = new_acc () in cur := Some (tag, a); a in
   let run_hand flags d =
     let a = getA () in
-    Printf.printf "hyph slots_distinct=%s nonnull=%s u64=%s\n" (b01 (slots_distinct a.t_nbl d)) (b01 (List.for_all entry_nonnull d))
+    Printf.printf "hyph slots_distinct=%s nonnull=%s dupname_hit=%s u64=%s\n" (b01 (slots_distinct a.t_nbl d)) (b01 (List.for_all entry_nonnull d)) (b01 (dupname_hit a d))
       (b01 (List.for_all entry_u64 d));
     (match apply flags d a with
      | ACrash -> raise (Case_crashed "apply")
@@ -223,7 +233,7 @@ let () =
             | BRet (rc, d) ->
               Printf.printf "build %s %d\n" (string_of_z rc) (List.length d);
               List.iter print_entry d;
-              Printf.printf "hypd slots_distinct=%s nonnull=%s\n" (b01 (slots_distinct a.t_nbl d)) (b01 (List.for_all entry_nonnull d));
+              Printf.printf "hypd slots_distinct=%s nonnull=%s dupname_hit=%s\n" (b01 (slots_distinct a.t_nbl d)) (b01 (List.for_all entry_nonnull d)) (b01 (dupname_hit a d));
               if rc = Z0 then begin
                 match apply N0 d a with
                 | ACrash -> raise (Case_crashed "apply")
